@@ -303,3 +303,20 @@ func init() {
 		}
 	}
 }
+
+func init() {
+	dumpers["rewrites"] = func(p *Prog, m *Model) {
+		pk := map[string]bool{}
+		for _, s := range strings.Split(os.Getenv("PKG"), ",") {
+			pk[s] = true
+		}
+		for _, fn := range allModFuncs(p) {
+			if !pk[pkgOfFunc(fn)] || fn.Synthetic != "" {
+				continue
+			}
+			for _, rs := range rewriteSitesOf(p, fn) {
+				fmt.Printf("%s\t%s\t%s\tPROPS\tREASON\t# %s\n", fnDisplay(fn), rs.Name, rs.Sig, p.ipos(rs.In))
+			}
+		}
+	}
+}
